@@ -279,6 +279,35 @@ def evaluatorOp (j : Json) : R Json := do
     let v ← extractVars vnd ndim m (ncIncluded ndim lastDim m) ns.1 ns.2
     pure (obj [("vars", ofVars ofFloat v), ("sem", ofList ofFloat (v.model.map getSem))])
 
+/-- round 4: a session on one `Result` — the model runs the calls with an explicit state (content and
+    caches) through `runSession` with the effects / results *as coded* (write counts and state cells are
+    the generated leaves).  The stand-alone value of a call is a function of the content it finds, so the
+    op reports per call whether the content it saw and the content it left behind are the pristine ones;
+    the harness then takes the call's value from the stand-alone ops (`c06.result`, `c06.boot`, …) on the
+    pristine content. -/
+def sessionOp (j : Json) : R Json := do
+  let evals ← fld j "evals" >>= asList (asOpt asInt)
+  let vars ← fld j "vars" >>= asList asInt
+  let ceil ← fld j "ceil" >>= asList (asOpt asInt)
+  let callsJ ← fld j "calls" >>= asArr
+  let calls ← callsJ.mapM (fun cj => do
+    let r ← fld cj "route" >>= asStr
+    let arg ← fld cj "arg" >>= asNat
+    let key ← fld cj "key" >>= asNat
+    match Route.ofString? r with
+    | some route => pure ({ route := route, arg := arg, key := key } : Call)
+    | none => throw s!"unknown route {r}")
+  let content : Content Int := { evals := evals, vars := vars, ceil := ceil }
+  let pure_ : Call → Content Int → Content Int := fun _ ct => ct
+  let s0 : SState Int (Content Int) := { content := content, memo := [] }
+  let out := runSession (callEffect pure_) (callResult pure_) calls s0
+  let rows := (calls.zip out).map (fun (c, (seen, after)) =>
+    obj [("seen_pristine", Json.bool (decide (seen = content))),
+         ("after_pristine", Json.bool (decide (after.content = content))),
+         ("memo_empty", Json.bool after.memo.isEmpty),
+         ("writes", ofNat (writesOf c.route))])
+  pure (obj [("calls", Json.arr rows.toArray), ("cells", ofNat stateCells)])
+
 def handle : Handler := fun op j =>
   match op with
   | "c06.dual" => some (dualOp j)
@@ -291,6 +320,7 @@ def handle : Handler := fun op j =>
   | "c06.ranksum" => some (ranksumOp j)
   | "c06.fixed" => some (fixedOp j)
   | "c06.evaluator" => some (evaluatorOp j)
+  | "c06.session" => some (sessionOp j)
   | _ => none
 
 end Rsa.Drv.C06
